@@ -79,6 +79,7 @@ static Verdict run_c09(const Case &c)
     uint64_t seed = strtoull(c.get("seed", "0").c_str(), NULL, 10);
     int n = (int)c.geti("n", 64);
     Sm64 r(seed);
+    bytes prevk, prevb;
     for (int i = 0; i < n; i++)
     {
       bytes k(16), b(16);
@@ -88,6 +89,21 @@ static Verdict run_c09(const Case &c)
         memcpy(k.data() + j, &x, 8);
         memcpy(b.data() + j, &y, 8);
       }
+      // half of the pairs share a prefix of random length with the previous key / block, so that anything
+      // remembered from the previous call (a cached key schedule, a stale state) would be used for a different input
+      uint64_t sel = r.next();
+      if (i > 0 && (sel & 1))
+      {
+        size_t keep = 1 + (sel >> 8) % 15;
+        memcpy(k.data(), prevk.data(), keep);
+      }
+      if (i > 0 && (sel & 2))
+      {
+        size_t keep = 1 + (sel >> 16) % 15;
+        memcpy(b.data(), prevb.data(), keep);
+      }
+      prevk = k;
+      prevb = b;
       pairs.push_back({k, b});
     }
     v.classes.push_back("random_pairs");
